@@ -533,9 +533,148 @@ fn run_nlri(l: &[Val]) -> Val {
     Val::L(vec![api_nlri_val(&x), net_from_api_val(back)])
 }
 
+// ---------------------------------------------------------------- kind 4: the wide differential part
+const ALL_FAMILIES: [Family; 19] = [
+    Family::IPV4,
+    Family::IPV6,
+    Family::IPV4_MC,
+    Family::IPV6_MC,
+    Family::IPV4_MPLS,
+    Family::IPV6_MPLS,
+    Family::LS,
+    Family::IPV4_MUP,
+    Family::IPV6_MUP,
+    Family::IPV4_VPN,
+    Family::IPV6_VPN,
+    Family::IPV4_FLOWSPEC,
+    Family::IPV6_FLOWSPEC,
+    Family::IPV4_FLOWSPEC_VPN,
+    Family::IPV6_FLOWSPEC_VPN,
+    Family::IPV4_SRPOLICY,
+    Family::IPV6_SRPOLICY,
+    Family::L2VPN_EVPN,
+    Family::RTC,
+];
+
+fn fam_u32(f: Family) -> u32 {
+    ((f.afi() as u32) << 16) | f.safi() as u32
+}
+
+// round-trip status of one held attribute: 0 equal, 1 differs, 2 rejected, 3 only the flags
+// differ, -1 attr_to_api panicked, -2 attr_from_api panicked
+fn attr_rt_status(a: &Attribute) -> (i128, Option<Attribute>) {
+    let x = match catch_unwind(AssertUnwindSafe(|| attr_to_api(a))) {
+        Ok(x) => x,
+        Err(_) => return (-1, None),
+    };
+    match catch_unwind(AssertUnwindSafe(|| attr_from_api(x))) {
+        Err(_) => (-2, None),
+        Ok(Err(_)) => (2, None),
+        Ok(Ok(b)) => {
+            if &b == a {
+                (0, None)
+            } else if b.code() == a.code()
+                && b.value() == a.value()
+                && b.binary() == a.binary()
+                && b.is_opaque() == a.is_opaque()
+            {
+                (3, None)
+            } else {
+                (1, Some(b))
+            }
+        }
+    }
+}
+
+fn nlri_rt_status(n: &Nlri, family: Family) -> (i128, Option<Nlri>) {
+    let x = match catch_unwind(AssertUnwindSafe(|| nlri_to_api(n))) {
+        Ok(x) => x,
+        Err(_) => return (-1, None),
+    };
+    match catch_unwind(AssertUnwindSafe(|| net_from_api(x, family))) {
+        Err(_) => (-2, None),
+        Ok(Err(_)) => (2, None),
+        Ok(Ok(b)) => {
+            if &b == n { (0, None) } else { (1, Some(b)) }
+        }
+    }
+}
+
+// [4, opts, message bytes]: opts bit0 = two-octet-AS session, bit1 = ADD-PATH receive
+fn run_wide(l: &[Val]) -> Val {
+    let opts = l[1].u8();
+    let msg = l[2].bytes();
+    let mut codec = PeerCodec::new();
+    codec.extended_length = true;
+    codec.two_byte_as = opts & 1 != 0;
+    for f in ALL_FAMILIES {
+        codec.set_family(f, bgp::FamilyState { addpath_rx: opts & 2 != 0, addpath_tx: false });
+    }
+    let (attrs, nets) = match codec.parse_message(&msg) {
+        Ok(bgp::ParsedMessage::Update(bgp::ParsedUpdate::Routes {
+            reach,
+            mp_reach,
+            unreach,
+            mp_unreach,
+            attrs,
+            ..
+        })) => {
+            let mut nets: Vec<(Family, Nlri)> = Vec::new();
+            for r in [reach, mp_reach].into_iter().flatten() {
+                for e in r.entries {
+                    nets.push((r.family, e.nlri));
+                }
+            }
+            for r in [unreach, mp_unreach].into_iter().flatten() {
+                for e in r.entries {
+                    nets.push((r.family, e.nlri));
+                }
+            }
+            (attrs, nets)
+        }
+        _ => return Val::L(vec![i(0)]),
+    };
+    let av = attrs
+        .iter()
+        .map(|a| {
+            let (st, back) = attr_rt_status(a);
+            let mut v = vec![
+                Val::n(a.code()),
+                Val::n(a.flags()),
+                i(if a.value().is_some() { 0 } else if a.is_opaque() { 2 } else { 1 }),
+                i(st),
+            ];
+            if st != 0 {
+                v.push(attr_val(a));
+            }
+            if let Some(b) = back {
+                v.push(attr_val(&b));
+            }
+            Val::L(v)
+        })
+        .collect();
+    let nv = nets
+        .iter()
+        .map(|(f, n)| {
+            let (st, back) = nlri_rt_status(n, *f);
+            let mut v = vec![Val::n(fam_u32(*f)), i(st)];
+            if st != 0 {
+                v.push(s_val(&format!("{}", n)));
+                v.push(Val::from_bytes(&n.encode_to_bytes()));
+            }
+            if let Some(b) = back {
+                v.push(Val::from_bytes(&b.encode_to_bytes()));
+            }
+            Val::L(v)
+        })
+        .collect();
+    Val::L(vec![i(1), Val::L(av), Val::L(nv)])
+}
+
 fn run_case(case: &Val) -> Val {
     let l = case.list();
     match l[0].int() {
+        4 => run_wide(l),
         0 => run_wire(l),
         1 => run_api(l),
         2 => run_api_nlri(l),
